@@ -4,7 +4,9 @@ SPEC_PART = dict(
                mask=[7, 12, 13, 15], n_quick=60, n_thorough=600, panic_is_violation=True)],
     trusted=["the images fed to the crate are produced by an encoder in tools/families/theta.py written from the format description "
              "(independent of the crate and of the Coq model); the oracle decodes them with Spec/ThetaLayout.v"],
-    assumptions=[],
+    assumptions=["the reader's seed has a non-zero 16-bit seed hash (otherwise deserialize_with_seed returns Err)",
+                 "abs_okb (what counts as a valid image) does not demand distinct entries in an unordered image; the crate has no "
+                 "theta set operations, so that clause of C13 has nothing to apply to"],
     covers="theta: c_deserialize(enc_spec v a) = Ok (the state a) for serVer 1, serVer 2 (empty / exact / estimating), serVer 3 "
            "(empty, single item with or without SINGLE_ITEM flag, exact, estimating incl. zero entries, ordered / unordered, "
            "and the same states written with more preamble longs than necessary: preLongs 2 with one entry, preLongs 3 in exact "
